@@ -208,6 +208,7 @@ impl<TStdlib: Stdlib, TStdIn: Input, TStdOut: Printer, TLpt1: Printer> Interpret
             halt: false,
             error_handler: ErrorHandler::None,
             opt_next_index: None,
+            unwind_to_module_level: false,
             nearest_statement_finder: NearestStatementFinder::new(statement_addresses),
         };
         while i < instructions.len() && !ctx.halt {
@@ -225,7 +226,12 @@ impl<TStdlib: Stdlib, TStdIn: Input, TStdOut: Printer, TLpt1: Printer> Interpret
                 }
                 statement_entries[call_depth] = self.statement_entry();
             }
-            match self.interpret_one(i, instruction, pos, &mut ctx) {
+            let result = self.interpret_one(i, instruction, pos, &mut ctx);
+            if ctx.unwind_to_module_level {
+                ctx.unwind_to_module_level = false;
+                self.unwind_to_module_level(statement_entries.first());
+            }
+            match result {
                 Ok(_) => match ctx.opt_next_index.take() {
                     Some(next_index) => {
                         i = next_index;
@@ -533,6 +539,9 @@ impl<TStdlib: Stdlib, TStdIn: Input, TStdOut: Printer, TLpt1: Printer>
                 self.take_last_error_address().with_err_at(&pos)?;
                 ctx.opt_next_index = Some(resume_label.address());
                 self.context.pop();
+                // the label belongs to the module-level code: the subprograms that were
+                // active when the error occurred end here
+                ctx.unwind_to_module_level = true;
             }
             Instruction::Throw(interpreter_error) => {
                 return Err(interpreter_error.clone()).with_err_at(&pos);
@@ -685,6 +694,30 @@ impl<TStdlib: Stdlib, TStdIn: Input, TStdOut: Printer, TLpt1: Printer>
         Ok(())
     }
 
+    /// Ends every active subprogram call (`RESUME label` after an error that occurred
+    /// inside a SUB or FUNCTION): only the module-level context, the GOSUBs of the
+    /// module-level code and what its current statement had on the stacks remain.
+    fn unwind_to_module_level(&mut self, module_level_entry: Option<&StatementEntry>) {
+        if self.return_address_stack.is_empty() {
+            return;
+        }
+        self.return_address_stack.clear();
+        self.stacktrace.clear();
+        self.context.truncate_states(1);
+        self.function_result = None;
+        while matches!(self.go_sub_address_stack.last(), Some((_, depth)) if *depth > 0) {
+            self.go_sub_address_stack.pop();
+        }
+        if let Some(entry) = module_level_entry {
+            self.value_stack.truncate(entry.value_stack);
+            self.var_path_stack.truncate(entry.var_path_stack);
+            self.by_ref_stack.truncate(entry.by_ref_stack);
+            while self.outer_print_states.len() > entry.print_states {
+                self.print_state = self.outer_print_states.pop().unwrap();
+            }
+        }
+    }
+
     /// Records the depths of the stacks at the start of a statement.
     fn statement_entry(&self) -> StatementEntry {
         StatementEntry {
@@ -757,6 +790,10 @@ struct InterpretOneContext {
     /// The instruction can indicate the next address for the control flow.
     /// If not set, control flow will resume to the next statement, if any.
     opt_next_index: Option<usize>,
+
+    /// Set by `RESUME label`: execution continues in the module-level code,
+    /// whatever subprograms were active when the error occurred.
+    unwind_to_module_level: bool,
 
     nearest_statement_finder: NearestStatementFinder,
 }
